@@ -389,7 +389,7 @@ func (in *interp) mayBeNil(v Val) bool {
 		return false
 	}
 	sh := in.shapes[name]
-	return sh == nil || sh.MayNil || sh.Unknown
+	return sh == nil || sh.MayNil
 }
 
 const maxPaths = 512
